@@ -20,6 +20,8 @@ type Op struct {
 	In       []int  `json:"in"`
 	Init     bool   `json:"init"`
 	Trace    bool   `json:"trace,omitempty"`
+	NestAt   int    `json:"nest_at,omitempty"`
+	NestIn   []int  `json:"nest_in,omitempty"`
 	Parses   []Op   `json:"parses,omitempty"`
 	Schedule []int  `json:"schedule,omitempty"`
 }
@@ -32,6 +34,7 @@ type Res struct {
 	Val     map[string]interface{} `json:"val,omitempty"`
 	Fetched int                    `json:"fetched"`
 	Out     string                 `json:"out,omitempty"`
+	Nested  *Res                   `json:"nested,omitempty"`
 }
 
 // Job: one grammar to be generated in several variants and exercised.
